@@ -1,10 +1,54 @@
 import JominiModel.Driver.Util
+import JominiModel.Driver.C01
+import JominiModel.Driver.C02
+import JominiModel.Driver.C03
+import JominiModel.Driver.C04
+import JominiModel.Driver.C05
+import JominiModel.Driver.C06
+import JominiModel.Driver.C07
+import JominiModel.Driver.C08
+import JominiModel.Driver.C09
+import JominiModel.Driver.C10
 import JominiModel.Driver.C11
+import JominiModel.Driver.C12
+import JominiModel.Driver.C13
+import JominiModel.Driver.C14
+import JominiModel.Driver.C15
+import JominiModel.Driver.C16
+import JominiModel.Driver.C17
+import JominiModel.Driver.C18
+import JominiModel.Driver.C19
+import JominiModel.Driver.C20
 namespace Jomini.Driver
+
+/-- ops starting with `x-` are implementation-only oracle ops (L3): the model has no opinion. -/
+def skipHandler : Handler
+  | op :: _ => if op.startsWith "x-" then some "skip" else none
+  | [] => none
 
 /-- every op handler; the first that answers wins. -/
 def allHandlers : List Handler := [
-  C11.handle
+  C01.handle,
+  C02.handle,
+  C03.handle,
+  C04.handle,
+  C05.handle,
+  C06.handle,
+  C07.handle,
+  C08.handle,
+  C09.handle,
+  C10.handle,
+  C11.handle,
+  C12.handle,
+  C13.handle,
+  C14.handle,
+  C15.handle,
+  C16.handle,
+  C17.handle,
+  C18.handle,
+  C19.handle,
+  C20.handle,
+  skipHandler
 ]
 
 end Jomini.Driver
